@@ -10,6 +10,10 @@ package main
 //        | S<maxSize>.<queue> (age limit 60ms)
 // script steps (';' separated):
 //   P<pin token>   LogPin            U<cid>   LogUnpin
+//   cP.. / cU..    the same, submitted with a REQUEST-SCOPED context that is cancelled as soon as LogPin/LogUnpin has
+//                  returned (what an API request's context does); kP.. / kU..: with a context that is already done
+//                  when the call is made; xP.. / xU..: with a context whose deadline passes 1ms after the call
+//                  returned. An operation ACCEPTED with such a context must still be committed.
 //   h              close the datastore gate (writers are held)
 //   w              wait until a writer (the batch worker inside Commit) is held
 //   g<c..>         open the gate; c = o | b | t | e | x : fail the next write of that class once; several
@@ -140,7 +144,16 @@ func waitState(p *cpeer, vt *valTable, want string, timeout time.Duration) (stri
 }
 
 // runBatch executes one script; returns false when the infrastructure failed (inconclusive).
+// ctxMode splits the context marker off a P/U step: 0 (background context), 'c', 'k' or 'x'
+func ctxMode(st string) (byte, string) {
+	if len(st) >= 2 && (st[0] == 'c' || st[0] == 'k' || st[0] == 'x') && (st[1] == 'P' || st[1] == 'U') {
+		return st[0], st[1:]
+	}
+	return 0, st
+}
+
 func validBatchStep(st string) bool {
+	_, st = ctxMode(st)
 	switch {
 	case st == "h" || st == "w" || st == "f":
 		return true
@@ -177,7 +190,7 @@ func runBatch(emit func(string), cfgTok, script string) {
 	}
 	var pins []*api.Pin
 	for _, st := range steps {
-		if strings.HasPrefix(st, "P") {
+		if _, st := ctxMode(st); strings.HasPrefix(st, "P") {
 			pins = append(pins, common.PinOf(st[1:]))
 		}
 	}
@@ -215,7 +228,13 @@ func runBatch(emit func(string), cfgTok, script string) {
 	sinceFlush := 0
 	nextFill := 0
 	var tr, vals []string
-	submit := func(pin *api.Pin, isPin bool) string {
+	var reqCancels []context.CancelFunc
+	defer func() {
+		for _, c := range reqCancels {
+			c()
+		}
+	}()
+	submit := func(pin *api.Pin, isPin bool, cm byte) string {
 		// LogPin/LogUnpin must return at once (enqueue or refuse); a call that blocks is reported as 'e'
 		done := make(chan error, 1)
 		go func() {
@@ -228,6 +247,22 @@ func runBatch(emit func(string), cfgTok, script string) {
 			}()
 			subMu.Lock()
 			defer subMu.Unlock()
+			ctx := ctx
+			switch cm {
+			case 'c': // request-scoped: cancelled when the call has returned
+				c, cancel := context.WithCancel(ctx)
+				defer cancel()
+				ctx = c
+			case 'k': // already done
+				c, cancel := context.WithCancel(ctx)
+				cancel()
+				ctx = c
+			case 'x': // deadline passes shortly after the call returned
+				c, cancel := context.WithTimeout(ctx, time.Millisecond)
+				reqCancels = append(reqCancels, cancel)
+				defer time.Sleep(2 * time.Millisecond)
+				ctx = c
+			}
 			if isPin {
 				err = p.cc.LogPin(ctx, pin)
 			} else {
@@ -263,19 +298,20 @@ func runBatch(emit func(string), cfgTok, script string) {
 		if st == "" {
 			continue
 		}
+		cm, st := ctxMode(st)
 		switch st[0] {
 		case 'P':
 			pin := pins[npin]
 			npin++
 			vals = append(vals, strconv.Itoa(vt.val(pin)))
-			tr = append(tr, submit(pin, true))
+			tr = append(tr, submit(pin, true, cm))
 		case 'U':
 			c, err := strconv.Atoi(st[1:])
 			if err != nil {
 				tr = append(tr, "bad")
 				continue
 			}
-			tr = append(tr, submit(api.PinCid(common.CidN(c)), false))
+			tr = append(tr, submit(api.PinCid(common.CidN(c)), false, cm))
 		case 'h':
 			p.store.closeGate()
 			tr = append(tr, "h")
@@ -299,10 +335,10 @@ func runBatch(emit func(string), cfgTok, script string) {
 				}
 				f := fill[nextFill]
 				nextFill++
-				res := submit(f, true)
+				res := submit(f, true, 0)
 				for i := 0; res == "r" && i < 3000; i++ {
 					time.Sleep(time.Millisecond)
-					res = submit(f, true)
+					res = submit(f, true, 0)
 				}
 				fl = append(fl, fmt.Sprintf("%d.%d%s", common.CidIndex(f.Cid, common.PinUniverse), vt.val(f), res))
 			}
@@ -399,12 +435,18 @@ func genBatchScript(r *common.Rng, thorough bool) (string, string) {
 		return []string{"Z0.0", "Q", "Z2.50", "S3.1"}[r.Intn(4)], []string{"P;f", "U99;f", "gq;f", "P0/d;f", ";;;"}[r.Intn(5)]
 	}
 	ncid := 1 + r.Intn(4)
+	// half of the cases submit (some of) their operations with request-scoped / done / expiring contexts
+	ctxCase := r.Chance(1, 2)
 	op := func() string {
 		c := r.Intn(ncid)
-		if r.Chance(2, 3) {
-			return "P" + randPinTok(r, c)
+		pre := ""
+		if ctxCase && r.Chance(2, 3) {
+			pre = []string{"c", "c", "k", "x"}[r.Intn(4)]
 		}
-		return "U" + strconv.Itoa(c)
+		if r.Chance(2, 3) {
+			return pre + "P" + randPinTok(r, c)
+		}
+		return pre + "U" + strconv.Itoa(c)
 	}
 	ops := func(n int) []string {
 		l := make([]string, n)
